@@ -119,12 +119,21 @@ def isVoid (tag : String) : Bool :=
   ["area", "base", "br", "col", "embed", "hr", "img", "input", "link", "meta", "source", "track",
     "wbr"].contains tag
 
+/-- the attribute a typed attribute writes to (`class:` / `style:` items share theirs) -/
 def AttrTy.key : AttrTy → String
   | .str n => n
   | .ostr n => n
   | .bool n => n
   | .cls | .ocls | .tcls => "class"
   | .sty | .psty | .opsty => "style"
+
+/-- keys of the `Attr<K, V>` items (these must be distinct within one element) -/
+def namedKeys : List AttrTy → List String
+  | [] => []
+  | .str n :: r => n :: namedKeys r
+  | .ostr n :: r => n :: namedKeys r
+  | .bool n :: r => n :: namedKeys r
+  | _ :: r => namedKeys r
 
 def AttrVal.ty : AttrVal → AttrTy
   | .str n _ => .str n
@@ -143,12 +152,13 @@ def nodupS : List String → Bool
 
 mutual
 /-- the type is one tachys can express: tuples have an element, `Either` at least two branches,
-void elements have no children, and an element names every attribute key once -/
+void elements have no children, and an element names every `Attr<K, _>` key once (several
+`class` / `style` items are allowed) -/
 def Ty.wf : Ty → Bool
   | .text => true
   | .unit => true
   | .elem tag as c =>
-    nodupS (as.map AttrTy.key) && Ty.wf c && (!isVoid tag || (match c with | .unit => true | _ => false))
+    nodupS (namedKeys as) && Ty.wf c && (!isVoid tag || (match c with | .unit => true | _ => false))
   | .tuple ts => !ts.isEmpty && Ty.wfList ts
   | .opt t => Ty.wf t
   | .either ts => decide (2 ≤ ts.length) && Ty.wfList ts
@@ -297,8 +307,11 @@ def buildAttrs (el : Id) : List AttrVal → Dom → Dom × List AttrState
     let (d, ss) := buildAttrs el as d
     (d, s :: ss)
 
-/-- `Attribute::rebuild(state)` for one attribute -/
-def rebuildAttr (el : Id) (d : Dom) : AttrVal → AttrState → Dom × AttrState
+/-- `Attribute::rebuild(state)` for one attribute.  `er` = the value went through `into_any()`
+(`RenderHtml::into_owned`): `Class<String>` is then `Class<Arc<str>>`, whose `rebuild` compares
+pointers (`Arc::ptr_eq`), i.e. always writes the attribute; every other conversion
+(`Attr<K, Arc<str>>`, `Style<Arc<str>>`) still compares contents. -/
+def rebuildAttr (er : Bool) (el : Id) (d : Dom) : AttrVal → AttrState → Dom × AttrState
   | .str n v, .str prev => ((if v != prev then d.setAttribute el n v else d), .str v)
   | .ostr _ none, .ostr none => (d, .ostr none)
   | .ostr n none, .ostr (some _) => (d.removeAttribute el n, .ostr none)
@@ -307,12 +320,12 @@ def rebuildAttr (el : Id) (d : Dom) : AttrVal → AttrState → Dom × AttrState
     ((if v != prev then d.setAttribute el n v else d), .ostr (some v))
   | .bool n b, .bool prev =>
     ((if b != prev then (if b then d.setAttribute el n "" else d.removeAttribute el n) else d), .bool b)
-  | .cls v, .cls prev => ((if v != prev then d.setAttribute el "class" v else d), .cls v)
+  | .cls v, .cls prev => ((if er || v != prev then d.setAttribute el "class" v else d), .cls v)
   | .ocls none, .ocls none => (d, .ocls none)
   | .ocls none, .ocls (some _) => (d.removeAttribute el "class", .ocls none)
   | .ocls (some v), .ocls none => (d.setAttribute el "class" v, .ocls (some v))
   | .ocls (some v), .ocls (some prev) =>
-    ((if v != prev then d.setAttribute el "class" v else d), .ocls (some v))
+    ((if er || v != prev then d.setAttribute el "class" v else d), .ocls (some v))
   | .tcls name on, .tcls prevOn _ =>
     ((if on != prevOn then (if on then d.addClass el name else d.removeClass el name) else d),
       .tcls on name)
@@ -335,10 +348,11 @@ def rebuildAttr (el : Id) (d : Dom) : AttrVal → AttrState → Dom × AttrState
       (d, .opsty sname v)
   | _, s => (d, s)
 
-def rebuildAttrs (el : Id) : List AttrVal → List AttrState → Dom → Dom × List AttrState
+def rebuildAttrs (er : Bool) (el : Id) :
+    List AttrVal → List AttrState → Dom → Dom × List AttrState
   | a :: as, s :: ss, d =>
-    let (d, s') := rebuildAttr el d a s
-    let (d, ss') := rebuildAttrs el as ss d
+    let (d, s') := rebuildAttr er el d a s
+    let (d, ss') := rebuildAttrs er el as ss d
     (d, s' :: ss')
   | _, ss, d => (d, ss)
 
@@ -391,20 +405,20 @@ def replaceState (old new : State) (d : Dom) : Dom :=
   unmount old (insertBeforeThis old new d).1
 
 mutual
-/-- `Render::rebuild(self, state)` -/
-def rebuild : View → State → Dom → Dom × State
+/-- `Render::rebuild(self, state)`; `er` = inside an `AnyView` (see `rebuildAttr`) -/
+def rebuild (er : Bool) : View → State → Dom → Dom × State
   | .text s, .text id prev, d =>
     if s != prev then (d.setText id s, .text id s) else (d, .text id prev)
   | .unit, .unit id, d => (d, .unit id)
   | .elem _ as c, .elem el ass cs, d =>
-    let (d, ass') := rebuildAttrs el as ass d
+    let (d, ass') := rebuildAttrs er el as ass d
     match cs with
     | some cst =>
-      let (d, cst') := rebuild c cst d
+      let (d, cst') := rebuild er c cst d
       (d, .elem el ass' (some cst'))
     | none => (d, .elem el ass' none)
   | .tuple vs, .tuple sts, d =>
-    let (d, sts') := rebuildList vs sts d
+    let (d, sts') := rebuildList er vs sts d
     (d, .tuple sts')
   | .onone, .either i old, d =>
     if i = 1 then (d, .either 1 old) else
@@ -412,14 +426,14 @@ def rebuild : View → State → Dom → Dom × State
     (replaceState old (.unit id) d, .either 1 (.unit id))
   | .osome v, .either i old, d =>
     if i = 0 then
-      let (d, st) := rebuild v old d
+      let (d, st) := rebuild er v old d
       (d, .either 0 st)
     else
       let (d, st) := build v d
       (replaceState old st d, .either 0 st)
   | .either _ i v, .either j old, d =>
     if i = j then
-      let (d, st) := rebuild v old d
+      let (d, st) := rebuild er v old d
       (d, .either i st)
     else
       let (d, st) := build v d
@@ -432,35 +446,126 @@ def rebuild : View → State → Dom → Dom × State
       (mountBeforeEach new mk d, .vec new mk)
     else if vs.isEmpty then (unmountList sts d, .vec [] mk)
     else
-      let (d, sts') := rebuildZip vs sts mk d
+      let (d, sts') := rebuildZip er vs sts mk d
       (d, .vec sts' mk)
   | .any ty v, .any ty' old, d =>
     if Ty.beq ty ty' then
-      let (d, st) := rebuild v old d
+      let (d, st) := rebuild true v old d
       (d, .any ty' st)
     else
       let (d, st) := build v d
       (replaceState old st d, .any ty st)
   | _, st, d => (d, st)
-def rebuildList : List View → List State → Dom → Dom × List State
+def rebuildList (er : Bool) : List View → List State → Dom → Dom × List State
   | v :: vs, s :: ss, d =>
-    let (d, s') := rebuild v s d
-    let (d, ss') := rebuildList vs ss d
+    let (d, s') := rebuild er v s d
+    let (d, ss') := rebuildList er vs ss d
     (d, s' :: ss')
   | _, ss, d => (d, ss)
 /-- the `zip_longest` loop of `Vec::rebuild`; the result is the truncated old states followed by
 the added ones -/
-def rebuildZip : List View → List State → Id → Dom → Dom × List State
+def rebuildZip (er : Bool) : List View → List State → Id → Dom → Dom × List State
   | v :: vs, s :: ss, mk, d =>
-    let (d, s') := rebuild v s d
-    let (d, ss') := rebuildZip vs ss mk d
+    let (d, s') := rebuild er v s d
+    let (d, ss') := rebuildZip er vs ss mk d
     (d, s' :: ss')
   | v :: vs, [], mk, d =>
     let (d, s) := build v d
     let d := mountBefore s mk d
-    let (d, ss') := rebuildZip vs [] mk d
+    let (d, ss') := rebuildZip er vs [] mk d
     (d, s :: ss')
   | [], ss, _, d => (unmountList ss d, [])
+end
+
+/-! ## known-finding class predicates (decidable; their negations are the hypotheses of the
+partial theorems about class / style items) -/
+
+def AttrVal.isClassItem : AttrVal → Bool
+  | .cls _ | .ocls _ | .tcls _ _ => true
+  | _ => false
+
+def AttrVal.isStyleItem : AttrVal → Bool
+  | .sty _ | .psty _ _ | .opsty _ _ => true
+  | _ => false
+
+/-- writes the whole `class` attribute (`Class<String>`, `Class<Option<String>>`) -/
+def AttrVal.isWholeClass : AttrVal → Bool
+  | .cls _ | .ocls _ => true
+  | _ => false
+
+def AttrVal.isWholeStyle : AttrVal → Bool
+  | .sty _ => true
+  | _ => false
+
+/-- the `class` attribute has a whole-value writer and at least one more item: a rebuild of the
+whole value (`set_attribute` / `remove_attribute`) wipes what the other items added -/
+def classOverwrite (as : List AttrVal) : Bool :=
+  as.any AttrVal.isWholeClass && decide (2 ≤ (as.filter AttrVal.isClassItem).length)
+
+def styleOverwrite (as : List AttrVal) : Bool :=
+  as.any AttrVal.isWholeStyle && decide (2 ≤ (as.filter AttrVal.isStyleItem).length)
+
+def toggleNames : List AttrVal → List String
+  | [] => []
+  | .tcls n _ :: r => n :: toggleNames r
+  | _ :: r => toggleNames r
+
+def stylePropNames : List AttrVal → List String
+  | [] => []
+  | .psty n _ :: r => String.ofList (normName (trimL n.toList)) :: stylePropNames r
+  | .opsty n _ :: r => String.ofList (normName (trimL n.toList)) :: stylePropNames r
+  | _ :: r => stylePropNames r
+
+/-- two items of one element toggle the same class token / set the same style property -/
+def dupItem (as : List AttrVal) : Bool :=
+  !nodupS (toggleNames as) || !nodupS (stylePropNames as)
+
+def zipAny {α β : Type} (f : α → β → Bool) : List α → List β → Bool
+  | a :: as, b :: bs => f a b || zipAny f as bs
+  | _, _ => false
+
+/-- a `(name, bool)` class item changed its name between two values -/
+def toggleRenamed (as bs : List AttrVal) : Bool :=
+  zipAny (fun a b => match a, b with
+    | .tcls n _, .tcls m _ => n != m
+    | _, _ => false) as bs
+
+/-- a `(name, value)` style item changed its name between two values -/
+def styleRenamed (as bs : List AttrVal) : Bool :=
+  zipAny (fun a b => match a, b with
+    | .psty n _, .psty m _ => n != m
+    | .opsty n _, .opsty m _ => n != m
+    | _, _ => false) as bs
+
+mutual
+/-- some element of the view satisfies `p` on its attribute values -/
+def View.anyElem (p : List AttrVal → Bool) : View → Bool
+  | .elem _ as c => p as || View.anyElem p c
+  | .tuple vs => View.anyElemList p vs
+  | .osome v => View.anyElem p v
+  | .either _ _ v => View.anyElem p v
+  | .vec vs => View.anyElemList p vs
+  | .any _ v => View.anyElem p v
+  | _ => false
+def View.anyElemList (p : List AttrVal → Bool) : List View → Bool
+  | [] => false
+  | v :: vs => View.anyElem p v || View.anyElemList p vs
+end
+
+mutual
+/-- some element retained from `a` to `b` (same position, same branch, same erased type)
+satisfies `p` on its old and new attribute values -/
+def View.anyElemPair (p : List AttrVal → List AttrVal → Bool) : View → View → Bool
+  | .elem _ as c, .elem _ bs c' => p as bs || View.anyElemPair p c c'
+  | .tuple vs, .tuple ws => View.anyElemPairList p vs ws
+  | .osome v, .osome w => View.anyElemPair p v w
+  | .either _ i v, .either _ j w => i == j && View.anyElemPair p v w
+  | .vec vs, .vec ws => View.anyElemPairList p vs ws
+  | .any t v, .any t' w => Ty.beq t t' && View.anyElemPair p v w
+  | _, _ => false
+def View.anyElemPairList (p : List AttrVal → List AttrVal → Bool) : List View → List View → Bool
+  | v :: vs, w :: ws => View.anyElemPair p v w || View.anyElemPairList p vs ws
+  | _, _ => false
 end
 
 /-! ## specification side: the DOM of a fresh render -/
